@@ -51,6 +51,46 @@ theorem C08_pullid_matches_list (p : Option (Pred ι μ)) (proj : μ → μ) (it
       | nil => intro v; simp [held]
       | cons y ys ih => intro v; rw [held_cons]; exact ih y.1
 
+/-- An item outside the filtered collection is never sent: every value `PullID(id, WithInclude p, WithReadMask m)`
+sends - as seed or later - is the projection of a stored version of THAT item that satisfies the caller's
+predicate (`Matches`), for every predicate, projection, contents, history and id. -/
+theorem C08_pullid_values_match (p : Option (Pred ι μ)) (proj : μ → μ) (items : List (ι × μ))
+    (order : List (ι × μ)) (hperm : order.Perm (itemSlice p items))
+    (t t' : Nat) (as : List (Act ι μ)) (i : ι) :
+    let r := runActs t items as
+    let stream := (seedFrom t' order).map (maskChange proj) ++ r.2.filterMap (pullEvent p proj)
+    ∀ vb ∈ (pullIdLoop i stream).1, ∃ w, vb.1 = proj w ∧ Matches p i w := by
+  intro r stream vb hvb
+  obtain ⟨c, hc, hid, hk, hnew⟩ := pullIdLoop_mem i stream vb hvb
+  rcases List.mem_append.mp hc with hs | he
+  · obtain ⟨d, hd, rfl⟩ := List.mem_map.mp hs
+    have hpair : (d.id, d.new) ∈ (seedFrom t' order).map (fun c => (c.id, c.new)) :=
+      List.mem_map.mpr ⟨d, hd, rfl⟩
+    rw [seedFrom_ids] at hpair
+    obtain ⟨iv, hiv, heq⟩ := List.mem_map.mp hpair
+    have hiv' : iv ∈ itemSlice p items := hperm.subset hiv
+    have hex : exclude p iv.1 iv.2 = false := by
+      have := (List.mem_filter.mp hiv').2
+      simpa using this
+    have h1 : iv.1 = d.id := (Prod.mk.inj heq).1
+    have h2 : some iv.2 = d.new := (Prod.mk.inj heq).2
+    refine ⟨iv.2, ?_, ?_⟩
+    · simp only [maskChange, ← h2, Option.map_some] at hnew
+      exact (Option.some.inj hnew).symm
+    · have : (maskChange proj d).id = d.id := rfl
+      rw [← hid, this, ← h1]
+      exact matches_of_not_exclude p iv.1 iv.2 hex
+  · obtain ⟨e, _, hpe⟩ := List.mem_filterMap.mp he
+    simp only [pullEvent, Option.map_eq_some_iff] at hpe
+    obtain ⟨d, hd, rfl⟩ := hpe
+    have hk' : d.kind ≠ .remove := hk
+    simp only [maskChange, Option.map_eq_some_iff] at hnew
+    obtain ⟨w, hw, hpw⟩ := hnew
+    refine ⟨w, hpw.symm, ?_⟩
+    have : (maskChange proj d).id = d.id := rfl
+    rw [← hid, this]
+    exact includeChange_matches p e d hd hk' w hw
+
 /-- The same on a collection with an id interceptor, the writers and the subscriber spelling ids as they like:
 `PullID("DESK-2")` watches the item stored under `f "DESK-2"`; while the stream is open the subscriber holds
 the projected `List(WithInclude p)` entry of THAT id. -/
